@@ -118,12 +118,12 @@ theorem hyp_of_int (cfg : Cfg) (hcfg : cfg ∈ x86Cfgs ∨ cfg.arch = .a64) (f :
     rcases hcfg with hc | hc
     · exact x86_int_moves_ok cfg hc _ i _ _ _ _ hdt hst hrd hrs (params_vis cfg f vals hr i hi) d s
     · exact a64_int_moves_ok cfg hc _ i _ _ _ _ hdt hst hrd hrs (params_vis cfg f vals hr i hi) d s
-  refine ⟨fun i d s hi _ _ => (hmoves i hi d s).1, fun i d s b hi _ _ => (hmoves i hi d s).2 b, ?_, ?_⟩
+  refine ⟨fun i d s hi _ _ _ => (hmoves i hi d s).1, fun i d s b hi _ _ => (hmoves i hi d s).2 b, ?_, ?_⟩
   · intro i hi
     have hi' : i < vals.length := hi
     rw [params_src cfg f vals i hi', params_out cfg f vals i hi']
     exact params_vis cfg f vals hr i hi'
-  · intro i hi _
+  · intro i hi _ _
     have hi' : i < vals.length := hi
     obtain ⟨hst, hrs, hdt, hrd, hs1, hs2⟩ := hint i hi'
     rw [params_src cfg f vals i hi', params_out cfg f vals i hi', patch_regType]
